@@ -217,10 +217,17 @@ var resetExempt = map[string]string{
 	"internal/sparse.SparseSet.sparse": "Briggs-Torczon sparse set: see dense",
 }
 
+// resetSiblingExempt: (clearing method|field) pairs where a sibling deliberately does not re-initialise a scalar its siblings reset.
+var resetSiblingExempt = map[string]string{
+	"(*dfa/lazy.DFACache).ClearKeepMemory|clearCount": "the mid-search clear increments the clear budget counter instead of zeroing it (that is its purpose)",
+	"(*dfa/lazy.DFACache).ClearKeepMemory|hits":       "documented: hit/miss statistics accumulate across mid-search clears",
+	"(*dfa/lazy.DFACache).ClearKeepMemory|misses":     "documented: hit/miss statistics accumulate across mid-search clears",
+}
+
 func init() {
 	core.Register(&core.Rule{
 		Name: "R-RESET",
-		Doc: "For every module struct type T, memo fields MF(T) are the slice/map fields that receive populating writes (append, map insert, element store of a non-constant, copy) anywhere in the module. A clearing method of T is a method (with callees on the same receiver folded in) that resets at least one memo field (truncate [:0], fresh make, delete/clear, constant fill) and performs no populating write. Every clearing method must reset every memo field of T: a memo that survives a clear is consulted by the next search with keys (state ids, offsets) that now mean something else. Necessary for C13 (history independence) and C14 (engines exact under every cache capacity). Exemptions are per field with a reason (sparse-set arrays validated by cross-check).",
+		Doc: "For every module struct type T, memo fields MF(T) are the slice/map fields that receive populating writes (append, map insert, element store of a non-constant, copy) anywhere in the module. A clearing method of T is a method (with callees on the same receiver folded in) that resets at least one memo field (truncate [:0], fresh make, delete/clear, constant fill) and performs no populating write. Every clearing method must reset every memo field of T: a memo that survives a clear is consulted by the next search with keys (state ids, offsets) that now mean something else. Necessary for C13 (history independence) and C14 (engines exact under every cache capacity). (b) Sibling agreement: a non-memo field that at least two clearing siblings of a type re-initialise as a whole (start-state table, next id) must be re-initialised as a whole by every clearing sibling. Exemptions are per (method, field) with a reason (statistics that deliberately accumulate, the clear counter, sparse-set arrays validated by cross-check).",
 		Min: 18, NeedSSA: true,
 		Run: func(p *core.Prog) *core.RuleResult {
 			res := &core.RuleResult{}
@@ -353,6 +360,80 @@ func init() {
 						default:
 							o.Status = core.Violated
 							o.Detail = fmt.Sprintf("clearing method %s resets other memo fields of %s but not %s, which is populated by %s: entries survive the clear and are reused with recycled ids", m.Name(), core.TypeName(n), f.Name(), ti.memo[f])
+						}
+						res.Obligations = append(res.Obligations, o)
+					}
+				}
+			}
+			// (b) sibling agreement on whole-field resets: a field that two clearing siblings re-initialise as a whole must be
+			// re-initialised as a whole by every clearing sibling of that type (a partial, element-wise reset leaves stale parts)
+			for _, n := range names {
+				ti := infos[n]
+				if len(ti.memo) == 0 {
+					continue
+				}
+				type cm struct {
+					m     *ssa.Function
+					whole map[*types.Var]bool
+				}
+				var cms []cm
+				var ms []*ssa.Function
+				for m := range ti.methods {
+					ms = append(ms, m)
+				}
+				sort.Slice(ms, func(i, j int) bool { return ms[i].Name() < ms[j].Name() })
+				for _, m := range ms {
+					reset, pop := eff(m, n, map[*ssa.Function]bool{})
+					clearsMemo, popsMemo := false, false
+					for f := range ti.memo {
+						if reset[f] {
+							clearsMemo = true
+						}
+						if pop[f] {
+							popsMemo = true
+						}
+					}
+					if !clearsMemo || popsMemo {
+						continue
+					}
+					whole := map[*types.Var]bool{}
+					for _, w := range writes[m] {
+						if w.owner == n && !w.populate && w.how != "element store" && w.how != "delete" && w.how != "clear" {
+							whole[w.field] = true
+						}
+					}
+					cms = append(cms, cm{m, whole})
+				}
+				if len(cms) < 2 {
+					continue
+				}
+				count := map[*types.Var]int{}
+				for _, c := range cms {
+					for f := range c.whole {
+						count[f]++
+					}
+				}
+				var fs []*types.Var
+				for f, k := range count {
+					if k >= 2 && ti.memo[f] == "" {
+						fs = append(fs, f)
+					}
+				}
+				sort.Slice(fs, func(i, j int) bool { return fs[i].Name() < fs[j].Name() })
+				for _, f := range fs {
+					for _, c := range cms {
+						fq := core.TypeName(n) + "." + f.Name()
+						o := core.Obligation{Key: "R-RESET|" + core.FuncName(c.m) + "|re-initialises " + fq + " like its siblings", Pos: p.Pos(c.m.Pos()), Nontrivial: true}
+						switch {
+						case c.whole[f]:
+							o.Status = core.Discharged
+							o.Detail = "field is re-initialised as a whole"
+						case resetSiblingExempt[core.FuncName(c.m)+"|"+f.Name()] != "":
+							o.Status = core.Discharged
+							o.Detail = "exempt: " + resetSiblingExempt[core.FuncName(c.m)+"|"+f.Name()]
+						default:
+							o.Status = core.Violated
+							o.Detail = fmt.Sprintf("%d clearing siblings of %s re-initialise %s as a whole, %s does not (it resets it partially or not at all): the parts it leaves keep ids of states that no longer exist", count[f], core.TypeName(n), f.Name(), c.m.Name())
 						}
 						res.Obligations = append(res.Obligations, o)
 					}
